@@ -150,6 +150,11 @@ C11_H = [
     H("c11_verify_cert_v6_generic", "c11_sig", "thorough", 900, "certification verify_cert_v6_generic over user id | attribute (0xB4|0xD1 len32)", SIGN_FUNCS, "key bodies 3 bytes, id body 3 bytes"),
     H("c11_verify_cert_v4_revocation", "c11_sig", "thorough", 900, "certification verify_cert_v4_revocation over user id | attribute (0xB4|0xD1 len32)", SIGN_FUNCS, "key bodies 3 bytes, id body 3 bytes"),
 ]
+C11_H += [
+    H("c11_sp_%s" % n, "c11_sig", tier, 900, "hashed area = creation time + %s subpacket (critical bit and body symbolic): hashed bytes == RFC 5.2.3 wire form" % n, SIGN_FUNCS, "one known subpacket kind")
+    for n, tier in [("sig_expiration", "thorough"), ("key_expiration", "thorough"), ("issuer_keyid", "quick"), ("exportable", "thorough"), ("revocable", "thorough"),
+                    ("primary_uid", "thorough"), ("trust", "thorough"), ("issuer_fpr_v4", "quick"), ("issuer_fpr_v6", "thorough")]
+]
 PROPS["C11"] = {
     "inject": [("src/packet/signature/types.rs", "c11_sig")],
     "mem_gb": 14,
@@ -336,6 +341,8 @@ PROPS["C15"] = {
         H("c11_fields_v4", "c11_sig", "quick", 600, "unknown critical hashed subpacket refused, non-critical / experimental accepted", SIGN_FUNCS, "types 0..127"),
         H("c11_fields_v4_exp", "c11_sig", "quick", 600, "experimental critical subpacket accepted", SIGN_FUNCS, "types 100..110"),
         H("c15_issuer_keyid", "c11_sig", "thorough", 900, "issuer key id binding", VER_FUNCS, ""),
+        H("c15_issuer_fpr_mismatch_v4sig", "c11_sig", "quick", 900, "v4 signature with a v6 issuer fingerprint in the hashed area is refused", SIGN_FUNCS, ""),
+        H("c15_issuer_fpr_mismatch_v6sig", "c11_sig", "thorough", 900, "v6 signature with a v4 issuer fingerprint is refused", SIGN_FUNCS, ""),
         H("c15_ops_v3_sig4", "c15_ops", "quick", 600, "OPS v3 vs v4 signature: matches iff type, hash, pk octets equal", OPS_F, "6 symbolic octets"),
         H("c15_ops_v3_sig6", "c15_ops", "quick", 600, "OPS v3 vs v6 signature: never matches", OPS_F, "6 symbolic octets"),
         H("c15_ops_v6_sig6", "c15_ops", "quick", 600, "OPS v6 vs v6 signature: also salts equal", OPS_F, "6 octets + 2x2 salt octets"),
